@@ -4,6 +4,8 @@ import re
 import hir as H
 import mir as M
 import rulelib as L
+import symrules as SR
+import sym
 
 CRATES = ["identity_iota_core", "identity_document", "identity_verification"]
 SM = "identity_iota_core::state_metadata::document"
@@ -61,16 +63,26 @@ def run(F, R, tier):
     rb = F.mir(rfn)
     if r1.anchor(rh, rfn) and r1.anchor(rb, rfn):
         env = H.Env(rh)
+        # the slices the reader takes from its input, in order, on the accepting path(s) — by abstract evaluation, so that
+        # named offset constants, hoisted locals or helper functions do not matter
         gets = []
-        for n in H.walk(H.root(rh)):
-            if n.get("k") == "mcall" and n["name"] == "get" and H.origins(n["recv"], env) == {("param", "data")}:
-                a = H.strip(n["args"][0])
-                if a.get("k") == "lit":
-                    gets.append(("idx", H.literals(a)[0]))
-                elif a.get("k") in ("struct", "call"):
-                    lits = [x for x in H.literals(a) if isinstance(x, int)]
-                    kind = H.variant_name(a.get("res", {})) if a.get("k") == "struct" else H.fn_name(a).rsplit("::", 2)[-2] if H.fn_name(a) else "?"
-                    gets.append((kind, lits))
+        tabr = SR.Table(F, rfn, opaque=r"from_json_slice$|from_le_bytes$|FromPrimitive|from_u8$|try_from$|TryFrom|TryInto", rule=r1, max_paths=4000)
+        best = None
+        for q in tabr.ok():
+            gs = [e for e in q.calls(r"(\[T\]|slice::<impl \[T\]>)::get$") if sym.term(e.args[0]) == SR.param("data")]
+            if best is None or len(gs) > len(best):
+                best = gs
+        for e in best or []:
+            t_ = sym.term(e.args[1])
+            ints = [x[1] for x in sym.subterms(t_) if isinstance(x, tuple) and x[:1] == ("lit",) and isinstance(x[1], int) and not isinstance(x[1], bool)]
+            if t_[:1] == ("lit",):
+                gets.append(("idx", t_[1]))
+            elif "RangeInclusive" in sym.fmt(t_) or (t_[:1] == ("call",) and "RangeInclusive" in t_[1]):
+                gets.append(("RangeInclusive", ints[:2]))
+            elif t_[:1] == ("struct",) and t_[1].endswith("::Range"):
+                gets.append(("Range", ints))
+            else:
+                gets.append(("?", ints))
         r1.site("reader slices %s" % gets, rh["value"]["sp"])
         want_r = [("RangeInclusive", [0, 2]), ("idx", 3), ("idx", 4), ("RangeInclusive", [5, 6])]
         r1.require(gets[:4] == want_r, (rfn, "layout"), "the reader does not read marker [0..=2], version 3, encoding 4, length [5..=6]: %s" % gets)
